@@ -3,7 +3,10 @@
 import json, sys
 pid = sys.argv[1]; wt = sys.argv[2]; out = sys.argv[3]
 VARIANT = sys.argv[4] if len(sys.argv) > 4 else ''
-sfx = {'': ('a', 'b'), 'r2': ('c', 'd'), 'r3': ('e', 'f')}.get(VARIANT, ('c', 'd'))
+sfx = {'': ('a', 'b'), 'r2': ('c', 'd'), 'r3': ('e', 'f'), 'r4': ('g', 'h')}.get(VARIANT, ('c', 'd'))
+DIV4 = '''
+
+Diversity requirement for this round: the following kinds have already been tried, do NOT use them: caches/memoisation; shortcuts for all-zero tensors, requires_grad False or no_grad; rewrites of the symmetric-extension index helper; 2-tap (Haar) fast paths; choosing an order from strides; silent dtype casts; swapped row/column filters; magnitude thresholds / denormal flushing; torch.empty buffers left partly unwritten; fast paths for batch size 1 or for many channels that fold channels into the batch; stripping zero filter taps; state written onto the module during forward (e.g. clamping self.J); aliasing or in-place modification of inputs or filter arrays; small-image (<= 8x8) non-separable fast paths. Use something else, for example: an error that only appears when the SAME module or the same autograd graph is used TWICE before or during backward (saved tensors or ctx attributes overwritten by the second forward, backward called twice with retain_graph=True), a wrong constant factor or sign in a backward pass for only ONE level / ONE orientation / ONE of the lowpass-highpass branches, an option whose handling is wrong only for a particular VALUE combination of two or three options together with a particular number of levels, an off-by-one that needs a size that is 2 or 6 modulo 8 at the second or third level, a mode string handled by prefix / membership test so that one documented mode silently behaves like another, integer division or rounding applied at the wrong point for odd sizes, a broadcasting mistake that is invisible unless batch and channel counts differ from each other in a particular way (e.g. N == C hides it, or only N > C shows it).'''
 DIV3 = '''
 
 Diversity requirement for this round: the following kinds have already been tried, do NOT use them: (1) a cache/memoisation keyed on too little, (2) a shortcut that skips work when a tensor sums to zero / is all zero / has requires_grad False or runs under no_grad, (3) a rewrite of the symmetric-extension index helper, (4) a special fast path for 2-tap (Haar) filters, (5) choosing the filtering order from tensor strides, (6) silently casting the module or the input to another dtype, (7) swapping row/column filters of a 4-tuple. Use something else, for example: an error that needs SEVERAL CHANNELS or a BATCH > 1 together with some other condition (channel interleaving of grouped convolutions, reshapes that mix batch and channel), index/pad arithmetic that is only wrong when a size is congruent to a particular value modulo 4 or 8 or is close to the filter length, a level-dependent error that appears only at the THIRD or deeper decomposition level, an output that ALIASES an input or another output (a view instead of a copy) so that a later in-place operation by the caller corrupts it, a wrong result only for ONE of the six orientations / three sub-bands / one of the real-imaginary parts, an error for filter banks whose lowpass and highpass filters have DIFFERENT LENGTHS or ODD length, an error that depends on the ORDER in which two options are processed, or a numerically conditional branch (a threshold on magnitudes) that changes the value only for inputs in a narrow range.'''
@@ -12,6 +15,8 @@ DIV = '''
 Diversity requirement for this round: do NOT use (1) a cache/memoisation keyed on too little, (2) a shortcut that skips work when a tensor sums to zero / is all zero, or (3) a rewrite of the symmetric-extension index helper - those have been tried. At least one of your two changes must be of one of these kinds: an error in how an OPTION COMBINATION is handled (two options that each work alone), a change whose effect depends on TENSOR LAYOUT / DTYPE / requires_grad FLAGS rather than on sizes, a wrong constant or sign that only matters for ONE filter family or one mode, or TWO COOPERATING SITES (e.g. a helper and its caller, forward and backward) that each look correct alone.''' if VARIANT else ''
 if VARIANT == 'r3':
     DIV = DIV3
+if VARIANT == 'r4':
+    DIV = DIV4
 p = [json.loads(l) for l in open('/verif/properties.jsonl') if json.loads(l)['id'] == pid][0]
 print(f"""You are helping to evaluate a verification effort for the open-source Python library fbcotter/pytorch_wavelets (differentiable 1D/2D DWT, stationary WT, dual-tree complex wavelet transform, DTCWT ScatterNet, on top of PyTorch).
 
